@@ -2,7 +2,9 @@ SPECIFICATION Spec
 CONSTANTS
   Hash <- SHA1
   SrvG = 7
-  SrvN <- WoWN
+  NNat = 167
+  SrvN <- MCSrvN
+  Creds <- MCCreds1
+  Salts = {1}
 INVARIANT Inv
-POSTCONDITION PostCondition
 CHECK_DEADLOCK FALSE
